@@ -80,7 +80,19 @@ def gen(rng, prop=None):
     recs = {'IN': [], 'OUT': [], 'INTRA': []}
 
     def ts(i):
-        return (base + timedelta(days=rng.randint(0, 900), seconds=i)).strftime('%Y-%m-%d %H:%M:%S%z')
+        # the spellings exchanges export: seconds, milliseconds or microseconds; blank or `T` between date and time; offset as +hhmm,
+        # +hh:mm or (for UTC) `Z`. What counts is the instant to the microsecond and the offset, as dateutil reads them.
+        d = base + timedelta(days=rng.randint(0, 900), seconds=i, microseconds=rng.choice([0, 0, 0, 250000, 123456, 1, 999999, 500]))
+        k = rng.random()
+        if k < 0.45:
+            return d.strftime('%Y-%m-%d %H:%M:%S.%f%z' if d.microsecond else '%Y-%m-%d %H:%M:%S%z')
+        if k < 0.65:
+            return d.isoformat()
+        if k < 0.8:
+            return d.isoformat(sep=' ')
+        if k < 0.9 and d.utcoffset() == timedelta(0):
+            return d.strftime('%Y-%m-%dT%H:%M:%S.%f' if d.microsecond else '%Y-%m-%dT%H:%M:%S') + 'Z'
+        return str(d)
     # text cells that look like numbers, and one identifier shared by several rows (partial fills of one order, one on-chain transaction
     # seen in two tables): identifiers and notes are text and are kept as they are; rows are never merged
     def uid(i):
@@ -221,7 +233,8 @@ def inject(rng, case):
         case["fault"] = kind
     elif kind == "repeated-table":
         t = rng.choice(sorted({t for t, _, _ in pos}) or ['IN'])      # a table that has data rows (repeating an empty table is harmless and accepted)
-        rows += [[t] + [None] * (W - 1), ['h'] * W, ['TABLE END'] + [None] * (W - 1)]
+        # the keyword of the second table in any letter case (keywords are recognised case-insensitively: `IN` … `In` is a repeated table too)
+        rows += [[rng.choice([t, t.lower(), t.capitalize(), t.upper()])] + [None] * (W - 1), ['h'] * W, ['TABLE END'] + [None] * (W - 1)]
         case["fault"] = kind
     elif kind == "nested-table" and pos:
         t, ri, k = rng.choice(pos)
@@ -353,6 +366,13 @@ def diff(case, i, m):
 
 
 # ---------------- oracles
+def same_stamp(ts, cell):
+    """the parsed timestamp is the instant (to the microsecond) and the UTC offset the cell states, as dateutil reads the text"""
+    from dateutil.parser import parse as _du
+    w = _du(cell)
+    return ts == w and ts.utcoffset() == w.utcoffset()
+
+
 def oracle_c11(case, res, guard=True):
     """parsed transactions = the generator's own row records (valid inputs only)"""
     if case["fault"] is not None:
@@ -378,7 +398,7 @@ def oracle_c11(case, res, guard=True):
             return f"IN row {rowid[('IN', k)]}: crypto_in/spot_price {t.crypto_in}/{t.spot_price} vs cells {r['crypto_in']!r}/{r['spot_price']!r}"
         if t.exchange != r['exchange'] or t.holder != r['holder'] or t.transaction_type.value != r['transaction_type'].lower() or t.asset != r['asset']:
             return f"IN row {rowid[('IN', k)]}: exchange/holder/type/asset differ from the cells"
-        if str(t.timestamp) != str(datetime.strptime(r['timestamp'], '%Y-%m-%d %H:%M:%S%z')):
+        if not same_stamp(t.timestamp, r['timestamp']):
             return f"IN row {rowid[('IN', k)]}: timestamp {t.timestamp} vs cell {r['timestamp']}"
         cf = r.get('crypto_fee')
         ff = r.get('fiat_fee')
@@ -415,7 +435,7 @@ def oracle_c11(case, res, guard=True):
         t = outs[rowid[('OUT', k)]]
         if Decimal(t.crypto_out_no_fee) != q11(r['crypto_out_no_fee']) or Decimal(t.crypto_fee) != q11(r['crypto_fee']) or Decimal(t.spot_price) != q11(r['spot_price']) or t.transaction_type.value != r['transaction_type'].lower():
             return f"OUT row {rowid[('OUT', k)]}: amount/fee/price/type differ from the cells"
-        if t.exchange != r['exchange'] or t.holder != r['holder'] or str(t.timestamp) != str(datetime.strptime(r['timestamp'], '%Y-%m-%d %H:%M:%S%z')):
+        if t.exchange != r['exchange'] or t.holder != r['holder'] or not same_stamp(t.timestamp, r['timestamp']):
             return f"OUT row {rowid[('OUT', k)]}: exchange/holder/timestamp differ from the cells"
         if r.get('fiat_fee') is not None and Decimal(t.fiat_fee) != q11(r['fiat_fee']):
             return f"OUT row {rowid[('OUT', k)]}: fiat_fee {t.fiat_fee} vs cell {r['fiat_fee']!r}"
@@ -427,6 +447,8 @@ def oracle_c11(case, res, guard=True):
         t = xs[rowid[('INTRA', k)]]
         if Decimal(t.crypto_sent) != q11(r['crypto_sent']) or Decimal(t.crypto_received) != q11(r['crypto_received']) or t.to_holder != r['to_holder'] or t.from_exchange != r['from_exchange'] or t.to_exchange != r['to_exchange']:
             return f"INTRA row {rowid[('INTRA', k)]}: sent/received/accounts differ from the cells"
+        if not same_stamp(t.timestamp, r['timestamp']):
+            return f"INTRA row {rowid[('INTRA', k)]}: timestamp {t.timestamp} vs cell {r['timestamp']}"
         if r.get('spot_price') is not None and Decimal(t.spot_price) != q11(r['spot_price']):
             return f"INTRA row {rowid[('INTRA', k)]}: spot_price {t.spot_price} vs cell {r['spot_price']!r}"
         if t.unique_id != (r.get('unique_id') or '') or t.notes != (r.get('notes') or ''):
